@@ -44,6 +44,7 @@ fn main() {
         "budget-drive" => vmtrace::budget_drive(rest),
         "alloc-drive" => vmtrace::alloc_drive(rest),
         "gc-drive" => vmtrace::gc_drive(rest),
+        "life-drive" => vmtrace::life_drive(rest),
         "cards-show" => drive::show(rest),
         "table-replay" => util::run_cases(rest, tables::replay_case),
         "table-drive" => tables::drive(rest),
